@@ -3,13 +3,16 @@ PROP = dict(
     corr=dict(quick=1000, thorough=4000),
     thorough_seeds=6,
     gen=["Kernels"],
-    tie_modules=["M3d.Lemmas.KernelsTieBox"],
+    tie_modules=["M3d.Lemmas.KernelsTieBox", "M3d.Lemmas.KernelsTieSlab"],
     corr_theorems=(
         "hierarchical queries (kinds j3/j2/o3): M3d.C08.joined_ray_eq_concat, joined_first_eq_min, joined_sphere_iff, "
-        "multi_segment_eq, multi_rect_eq, multi_triangle_eq, joined2_*, bvh_object_cast_eq_min together with grouped_collider_wf / "
-        "bvh_collider_wf / flatten_same_leaves (the driver prints the pruned traversal and, for sound leaves, checks it against the "
+        "multi_segment_eq, multi_rect_eq, multi_triangle_eq, joined2_*, bvh_object_cast_eq_min, nary_bvh_object_cast_eq_min, "
+        "nary_bvh_collider_ray together with grouped_collider_wf / bvh_collider_wf / nary_bvh_collider_wf(2) (shapes of L/J nodes - "
+        "BVHs with branches of any width, nests of joined colliders - are converted by bvhJoin) / flatten_same_leaves (the driver prints "
+        "the pruned traversal and, for sound leaves, checks it against the "
         "linear scan); d3/d2: mesh_dist_eq_min(2); kd3/kd2: kd_invariant, kd_contains_iff, kd_nn_eq_min, kd_knn_eq_k_smallest, "
-        "kd_sphere_iff (run on the REAL tree); group/bvh: group_bounders_perm, bvh_leaves_perm; slab/pbd kinds validate the faithful "
+        "kd_knn_points_stored, kd_sphere_iff (run on the REAL tree), knntab: kd_knn_table_eq_scan (answers kept by the caller and read "
+        "after later queries); group/bvh: group_bounders_perm, bvh_leaves_perm; slab/pbd kinds validate the faithful "
         "models of rayCollisionWithBounds / pointToBoundsDistSquared used by slab_prefilter_sound, slab_prefilter_exact, "
         "slab_segment_prefilter_exact, slab_direction_length_irrelevant (the model's decision IS 'the ray / segment meets the box', "
         "for directions of every length), pt_box_dist_lower_bound, sphere_prefilter_sound"
@@ -24,16 +27,23 @@ PROP = dict(
         "of the scenes (boxes, primitives, clouds, queries, radii) are multiplied as a whole by 2^-40..2^30 - all exact in float64. "
         "Synthetic leaves (canned answers, sound or deliberately unsound) "
         "record which leaves the real hierarchy code evaluates; real triangles / segments / points are compared three ways "
-        "(implementation, Lean model, harness linear scan). distinct = distinct operation lines"
+        "(implementation, Lean model, harness linear scan). BVHToObject / BVHToCollider also get hand-made BVHs whose branches have 2..5 "
+        "(or all) children, objects in any order. Multi-step: tables of 2..6 consecutive KNN queries whose returned slices are kept and read "
+        "after the last query; kept TriangleCollisions answers are re-read after all queries on a set. distinct = distinct operation lines"
     ),
     trusted=[
         "regenerated, not hand-written: lean/M3d/Gen/Kernels.lean (Go->Lean translator harness/hlib/go2lean, run on the current "
         "source on every check); M3d.KernelsTie.Box.* re-prove against it that pointToBoundsDistSquared and "
         "sphereTouchesBounds/circleTouchesBounds (the pruning bounds of every hierarchy query; axis loop unrolled by the translator) "
         "and Coord Min/Max/SquaredDist are the model functions ptBoxDistSq3/2, sphereTouches3/2, V.min/max/sqDist of the soundness theorems, "
-        "and boundsArea is boundsArea3/2 (score of bestSplitAxis); rayCollisionWithBounds is outside the translator's subset (math.Inf) and is "
-        "tied by the slab kinds only",
-        "modelled, not verified: pointers as ids; sort.Slice as an arbitrary permutation per axis; areaDensityBVHSplit as an arbitrary in-range split oracle; "
+        "and boundsArea is boundsArea3/2 (score of bestSplitAxis); M3d.KernelsTie.Slab.* re-prove that the regenerated "
+        "model3d/model2d.rayCollisionWithBounds (unrolled loop, continue / early returns, math.Inf as class HasInf) is dec(rayBounds3/2) of the "
+        "slab theorems for every HasInf instance under the explicit hypothesis SlabFinite3/2 (slab parameters of non-zero-rate axes strictly "
+        "between negInf and posInf), that the two pruning decisions computed from it are rayAdmits / segAdmits, and that the regenerated "
+        "knnResults.MaxDist is knnMaxDist; JoinedCollider.rayCollidesWithBounds, knnResults.Insert, bestSplitAxis, splitBounders, "
+        "areaDensityBVHSplit are outside the translator's subset and tied by the correspondence kinds only",
+        "modelled, not verified: slices returned by queries are values (that a later call does not overwrite an earlier answer is checked by "
+        "the knntab kind / kept TriangleCollisions slices, not derived from a heap model; concurrent queries are not exercised); pointers as ids; sort.Slice as an arbitrary permutation per axis; areaDensityBVHSplit as an arbitrary in-range split oracle; "
         "splitBounders' index arithmetic as a stable partition (equal under the proved invariant, theorem split_positions)",
         "leaf behaviour (Triangle/Segment ray, sphere, segment, rect, triangle tests; Closest/Dist) is a parameter of the theorems: the only hypothesis is "
         "that what a leaf reports lies in its own bounding box (LeafSound3/2) - whether the real triangle code satisfies it under floating-point "
@@ -51,8 +61,11 @@ PROP = dict(
         "sphere/box incl. touching, box/box incl. touching, point-to-box distance is a lower bound); on non-empty boxes the slab test is exact "
         "(admits iff some t >= 0, resp. 0 <= t <= 1, has its point in the box) and therefore independent of the length of the direction vector; GroupBounders / newBVH / NewCoordTree only "
         "permute their input for every comparison, axis and split oracle; NewJoinedCollider's flattening keeps the leaves; JoinedCollider / "
-        "joinedMultiCollider / BVHToObject queries equal the scan over the leaves; meshDistFunc.Dist returns a face at minimal distance; "
-        "CoordTree Contains / NearestNeighbor / KNN / SphereCollision equal membership / argmin / k smallest sorted / exists-within-radius. "
+        "joinedMultiCollider / BVHToObject / BVHToCollider queries equal the scan over the leaves, for binary and for n-ary BVHs (every object of "
+        "every child of every branch exactly once); meshDistFunc.Dist returns a face at minimal distance; "
+        "CoordTree Contains / NearestNeighbor / KNN / SphereCollision equal membership / argmin / k smallest sorted (stored points, own "
+        "distances, multiplicities respected) / exists-within-radius; a table of KNN answers read after all queries equals the table of "
+        "brute-force answers. The regenerated rayCollisionWithBounds and knnResults.MaxDist are proved equal to the model functions. "
         "The models are tied to /repo on every run by replaying generated scenes on the real code: traversal traces with instrumented leaves, "
         "real trees serialised and re-queried by the model, real triangles / segments / points compared three ways."
     ),
